@@ -96,7 +96,7 @@ Proof.
     intros E ip h w h' w' r d Hr; subst; cbn [eq_rect run] in Hr.
   - inversion Hr; auto.
   - inversion Hr; auto.
-  - destruct v as [z|fl|b|s|s|l|dd|ff|i|sp l| |u]; try (eapply (IHk _ eq_refl _ _ _ _ _ _ _ Hr)).
+  - destruct v as [z|fl|b|s|s|l|dd|ff|i|sp l| |u|cr ci]; try (eapply (IHk _ eq_refl _ _ _ _ _ _ _ Hr)).
     destruct (get h u) as [cl|]; [|inversion Hr; auto]. destruct (c_cache cl) as [[sv|er]|]; [eapply (IHk _ eq_refl _ _ _ _ _ _ _ Hr)|inversion Hr; auto|].
     destruct (existsb (Pos.eqb u) ip); [discriminate|].
     destruct (f ip h w (TThunk u)) as [h1 w1 r1 d1| |] eqn:F; try discriminate.
@@ -129,7 +129,7 @@ Proof.
     destruct (run (bs n) (t::ip) h w (interpret (c_ast cl) (c_env cl))) as [h1 w1 r1 d0| |] eqn:R; try discriminate.
     assert (w1 = w) by (eapply (run_pure _ IH); [apply wf_interpret|exact R]). subst w1.
     destruct r1 as [v1|e1]; [|inversion Hb; auto].
-    destruct v1 as [z|fl|b|s|s|l0|dct|f|i|sp l0| |t']; try (inversion Hb; auto).
+    destruct v1 as [z|fl|b|s|s|l0|dct|f|i|sp l0| |t'|cr ci]; try (inversion Hb; auto).
     destruct (get h1 t') as [cl'|]; [|discriminate]. destruct (c_cache cl'); [inversion Hb; auto|].
     destruct (existsb (Pos.eqb t') (t::ip)); [discriminate|].
     destruct (bs n (t::ip) h1 w (TThunk t')) as [h2 w2 r2 d2| |] eqn:B; try discriminate.
